@@ -103,6 +103,13 @@ def run_experiment(ctx, name, which, args, bound, split):
     total = {'executions': 0, 'violations': 0, 'deadlocks': 0, 'points': 0, 'outcomes': {}, 'first': None,
              'demanded': 0, 'raised': 0}
     for item, code, lines, err in pqueue(job, [(which, args, bound, [], cap)]):
+        if isinstance(code, int) and code < 0 and code not in (-9, -99) and 'SCHED-UNSUPPORTED' not in err:
+            # the compiled program (generated code + harness) died from a signal under this schedule prefix: on the
+            # unchanged tree this never happens; it is the generated code crashing, not "no verdict"
+            what = [ln for ln in err.splitlines() if 'terminate' in ln or 'what()' in ln or 'Sanitizer' in ln][:2]
+            ctx.violation(f'{which.upper()}:crash:signal{-code}', f'{name}: the program crashed (signal {-code}) on schedule '
+                          f'prefix {item[3]}: {" ".join(what)[:200]}', {'harness': which, 'args': args, 'schedule': item[3]})
+            continue
         if code not in (0, 1) or not lines:
             raise HarnessError(f'{name}: harness exit {code}: {err[-400:]}')
         res = lines[0]
